@@ -2,7 +2,8 @@
    Transcribed from /repo (definitions only, no proofs):
      pkg/backend/backend.go:208-273   collectStorageWriteEvents (the sequencer), lines 229-236 in three atomic actions
      pkg/backend/retry/queue.go       FIFO queue (push at the tail with the time of the push, pop at the head)
-     pkg/backend/retry/retry.go       retry (head/age test, overwrite = getter / Deal / CAS+Put commit, dispatcher, pop)
+     pkg/backend/retry/retry.go       retry (head/age test, overwrite = getter / Deal / CAS+Put commit, dispatcher, pop — or keep the node
+                                      when the rewrite failed for a reason other than a failed compare)
      pkg/backend/compact.go:31-52     Backend.Compact: read committed, then cap by the queue head
      pkg/backend/txn.go               Create / Update / Delete reduced to get / deal / commit / notify / respond
      pkg/backend/creator/naive.go     create with its two fallbacks
@@ -390,7 +391,7 @@ Definition retry_step (s : state) (e : env) : state :=
           match latest (k_vers (s_store s (e_key node))) with
           | None => set_retry s (RPop node RSUnnecessary)
           | Some (modrev, val) =>
-              if is_empty val || negb (modrev =? e_rev node) then set_retry s (RPop node RSUnnecessary)
+              if negb (modrev =? e_rev node) then set_retry s (RPop node RSUnnecessary)
               else set_retry s (RDeal node val)
           end
       | _ => set_rlast (set_retry s RIdle) RSFailedGet        (* return true: the node stays *)
@@ -405,7 +406,12 @@ Definition retry_step (s : state) (e : env) : state :=
   | RDispatch node rev eo =>
       let ev := mk_ev rev (e_prev node) (e_verb node) (e_key node) (e_val node) eo in
       let st := match eo with None => RSSuccess | Some er => if is_unc er then RSUnknownPut else RSFailedPut end in
-      set_retry (set_slots s (slot_set (s_slots s) rev (Some ev))) (RPop node st)
+      let s1 := set_slots s (slot_set (s_slots s) rev (Some ev)) in
+      (* retry.go: after the dispatcher, an error that is not a failed compare keeps the node ("return true") *)
+      match eo with
+      | Some er => if is_cas er then set_retry s1 (RPop node st) else set_rlast (set_retry s1 RIdle) st
+      | None => set_retry s1 (RPop node st)
+      end
   | RPop node st =>
       set_rlast (set_retry (set_queue s (pop_head (s_queue s))) RIdle) st
   end.
